@@ -200,6 +200,29 @@ def _where(f):
     return ""
 
 
+# exception types that mean "the implementation failed internally" however they are handled afterwards
+INTERNAL_TYPES = ("NoTransition", "AssertionError", "AttributeError", "TypeError", "KeyError", "IndexError", "NameError",
+                  "UnboundLocalError", "AlreadyCalledError", "AlreadyCalled", "AlreadyCancelled", "ZeroDivisionError")
+
+
+def _install_failure_tap():
+    """Exceptions raised inside Deferred callbacks become Failures that nobody may ever look at; Twisted reports them from
+    Deferred.__del__, i.e. at a moment decided by the garbage collector.  The tap records them at the moment the Failure is
+    created instead (deterministic: inside the event that raised), in world.swallowed."""
+    from twisted.python.failure import Failure
+    orig = Failure.__init__
+
+    def __init__(self, exc_value=None, exc_type=None, exc_tb=None, captureVars=False):
+        orig(self, exc_value, exc_type, exc_tb, captureVars)
+        w = CTX.world
+        if w is not None and type(self.value).__name__ in INTERNAL_TYPES:
+            rec = (type(self.value).__name__, str(self.value)[:120], _where(self))
+            lst = w.__dict__.setdefault("swallowed", [])
+            if rec not in lst:
+                lst.append(rec)
+    Failure.__init__ = __init__
+
+
 _installed = False
 
 
@@ -221,5 +244,6 @@ def install():
     dm.os = OsProxy("dilside")
     wk.utils = NaclUtils()
     wk.SPAKE2_Symmetric = make_memo_spake()
+    _install_failure_tap()
     from twisted.logger import globalLogBeginner
     globalLogBeginner.beginLoggingTo([_log_observer], redirectStandardIO=False, discardBuffer=True)
